@@ -187,3 +187,50 @@ def check(case, stats):
     stats.sample(dict(config=cfg, operations=describe_ops(st, 60),
                       final_stacks=list(st.stacks)), nontrivial)
     return out
+
+
+# ---- known findings: one dedicated demonstration each ----------------------
+
+def demonstrate_known(k):
+    """True when the listed finding still reproduces on the current tree."""
+    import warnings
+    from decimal import Decimal
+    from pokerkit import Automation, Mode, NoLimitTexasHoldem
+    A = Automation
+    autos = (A.ANTE_POSTING, A.BET_COLLECTION, A.BLIND_OR_STRADDLE_POSTING,
+             A.CARD_BURNING, A.HOLE_DEALING, A.BOARD_DEALING,
+             A.HAND_KILLING, A.CHIPS_PUSHING, A.CHIPS_PULLING)
+    with warnings.catch_warnings():
+        warnings.simplefilter('ignore')
+        if k['kind'] == 'pot_unawarded_all_players_mucked':
+            try:
+                s = NoLimitTexasHoldem.create_state(
+                    autos, False, 0, (1, 2), 2, 200, 3, mode=Mode.CASH_GAME)
+                s.check_or_call()
+                s.check_or_call()
+                s.check_or_call()
+                while s.actor_index is not None:
+                    s.check_or_call()
+                while s.can_select_runout_count():
+                    s.select_runout_count()
+                while s.can_show_or_muck_hole_cards():
+                    s.show_or_muck_hole_cards(False)
+                left = sum(p.amount for p in s.pots)
+                return (not s.status) and left > 0 and \
+                    sum(s.stacks) < sum(s.starting_stacks)
+            except Exception:  # noqa: BLE001
+                return False
+        if k['kind'] == 'real_chip_rounding_assert':
+            try:
+                s = NoLimitTexasHoldem.create_state(
+                    tuple(A), False, 0, (Decimal('0.25'), Decimal('0.5')),
+                    Decimal('0.5'), Decimal('0.5'), 4,
+                    starting_board_count=3)
+                while s.status and s.can_check_or_call():
+                    s.check_or_call()
+            except AssertionError:
+                return True
+            except Exception:  # noqa: BLE001
+                return False
+            return False
+    return False
